@@ -171,7 +171,7 @@ def split_runs(lines):
     return runs
 
 
-def validate(paths, wd, module="Trace_Mv2Core", mk_cfg=trace_cfg, jobs=6, max_diag=8):
+def validate(paths, wd, module="Trace_Mv2Core", mk_cfg=trace_cfg, jobs=6, max_diag=48):
     """Returns (accepted_runs, rejected list of dicts {run, event_index, event, mismatches})."""
     all_runs = []
     for p in paths:
@@ -240,16 +240,15 @@ def validate(paths, wd, module="Trace_Mv2Core", mk_cfg=trace_cfg, jobs=6, max_di
             events += e
             rejected += rj
             deviations += dv
-    # diagnosis runs: which observations mismatch
-    diags = []
-    for k, bad in enumerate(rejected[:max_diag]):
+    # diagnosis runs (in parallel): which observations mismatch
+    def diagnose(kb):
+        k, bad = kb
         cur = os.path.join(wd, "d%d.ndjson" % k)
         with open(cur, "w") as f:
             f.write("\n".join(bad) + "\n")
         ok, matched, total, r = validate_trace(module, mk_cfg(True), cur, "cd%d" % k, timeout=600)
         mm = re.findall(r'<<"MISMATCH", (\d+), "([^"]+)">>', r.output)
         evs = [json.loads(x) for x in bad]
-        first = None
         names = []
         seen = set()
         for (li, name) in mm:
@@ -261,7 +260,10 @@ def validate(paths, wd, module="Trace_Mv2Core", mk_cfg=trace_cfg, jobs=6, max_di
         stuck = None
         if matched < total:
             stuck = matched  # 0-based index of the first event no action explains even with observations masked
-        diags.append({"events": evs, "mismatches": names, "stuck_at": stuck})
+        return {"events": evs, "mismatches": names, "stuck_at": stuck}
+
+    with cf.ThreadPoolExecutor(max_workers=max(1, jobs)) as ex:
+        diags = list(ex.map(diagnose, list(enumerate(rejected[:max_diag]))))
     for bad in rejected[max_diag:]:
         diags.append({"events": [json.loads(x) for x in bad], "mismatches": [], "stuck_at": None, "undiagnosed": True})
     # de-duplicate deviations (a rejected batch is re-validated from its tail)
@@ -316,7 +318,8 @@ def report(diags, out, prop, engine="core"):
                 mine.append((li, name, ev))
         if d.get("stuck_at") is not None and not d["mismatches"]:
             ev = evs[d["stuck_at"]] if d["stuck_at"] < len(evs) else {}
-            if prop == "C01":
+            # no action of the specification explains the event: owned by C01 and by the property the call belongs to
+            if prop == "C01" or RESULT_OWNER.get(ev.get("ev")) == prop:
                 mine.append((d["stuck_at"] + 1, "no-action", ev))
         if d.get("undiagnosed") and prop == "C01":
             mine.append((0, "undiagnosed", {}))
